@@ -16,7 +16,7 @@ Open Scope N_scope.
    broadcast per accepted operation of a stream-backed channel, expiry in
    deadline order) returns and broadcasts. *)
 Theorem C20_refines :
-  forall cfgs ops, forallb seq_op ops = true ->
+  forall cfgs ops, forallb ref_op ops = true ->
     run_obs cfgs hub0 ops = spec_obs cfgs sstate0 ops.
 Proof. exact refines. Qed.
 Print Assumptions C20_refines.
